@@ -6,7 +6,7 @@ use std::io::{BufRead, BufReader, Write};
 
 use nalgebra::{Matrix3, Point2};
 use packing::traits::*;
-use packing::{LJShape2, LJ2};
+use packing::{LJShape2, Transform2, LJ2};
 use serde_json::{json, Value};
 
 fn motions() -> Vec<Matrix3<f64>> {
@@ -20,6 +20,21 @@ fn motions() -> Vec<Matrix3<f64>> {
 
 fn mv(m: &Matrix3<f64>, x: f64, y: f64) -> Point2<f64> {
     Point2::new(m[(0, 0)] * x + m[(0, 1)] * y + m[(0, 2)], m[(1, 0)] * x + m[(1, 1)] * y + m[(1, 2)])
+}
+
+/// the library's own action of a motion on a particle, in its eight spellings
+fn moved_by_library(p: &LJ2, m: &Matrix3<f64>, k: usize) -> LJ2 {
+    let t = Transform2::from(*m);
+    match k % 8 {
+        0 => &t * p,
+        1 => t.clone() * p,
+        2 => &t * p.clone(),
+        3 => t.clone() * p.clone(),
+        4 => p * &t,
+        5 => p.clone() * &t,
+        6 => p * t.clone(),
+        _ => p.clone() * t.clone(),
+    }
 }
 
 pub fn lj(input: &str, out: &str) {
@@ -91,6 +106,20 @@ pub fn lj(input: &str, out: &str) {
                         "state": e, "observed": {"e_ab": eab, "e_ba": eba, "expected": expect}}));
                     break;
                 }
+                // the same molecules moved by the library (Shape::transform), and with a well
+                // depth other than one on every particle (the sum is linear in it)
+                let id = Matrix3::identity();
+                let t = Transform2::from(m);
+                let (a0, b0) = (mk(&pts("a"), &id), mk(&pts("b"), &id));
+                let et = a0.transform(&t).energy(&b0.transform(&t));
+                let deep = |s: &LJShape2| LJShape2 { name: s.name.clone(), items: s.items.iter().map(|p| LJ2 { epsilon: 2.5, ..p.clone() }).collect() };
+                let ed = deep(&a0).transform(&t).energy(&deep(&b0).transform(&t));
+                evaluations += 2;
+                if !((et - expect).abs() <= tol) || !((ed - 2.5 * expect).abs() <= 2.5 * tol) {
+                    failures.push(json!({"what": "energy of two molecules moved by Shape::transform differs from the sum over their particle pairs",
+                        "state": e, "observed": {"e_moved": et, "e_deep_moved": ed, "expected": expect}}));
+                    break;
+                }
             }
             continue;
         }
@@ -118,6 +147,41 @@ pub fn lj(input: &str, out: &str) {
                     if !((eab - expect).abs() <= tol) || !((eba - expect).abs() <= tol) {
                         failures.push(json!({"what": "pair energy differs from the shifted truncated 12-6 law",
                             "state": e, "observed": {"sigma": sigma, "r": r, "e_ab": eab, "e_ba": eba, "expected": expect}}));
+                        break 'outer;
+                    }
+                    // the energy is a function of the two particles only: evaluations of pairs
+                    // that differ in exactly one of (epsilon, sigma, cutoff, distance) in between
+                    // do not change it (the law is linear in epsilon: the first one is checked too)
+                    let base = (LJ2 { position: Point2::new(0.3, -0.2), sigma: *sigma, epsilon: eps, cutoff },
+                                LJ2 { position: Point2::new(0.3 + r * alpha.cos(), -0.2 + r * alpha.sin()), sigma: *sigma, epsilon: eps, cutoff });
+                    let with = |f: &dyn Fn(&mut LJ2)| { let (mut x, mut y) = (base.0.clone(), base.1.clone()); f(&mut x); f(&mut y); x.energy(&y) };
+                    let e3 = with(&|p| p.epsilon = 3. * eps);
+                    let again1 = a.energy(&b);
+                    let _ = with(&|p| p.sigma = 1.5 * sigma);
+                    let again2 = a.energy(&b);
+                    let _ = with(&|p| p.cutoff = Some(p.cutoff.map(|c| 1.25 * c).unwrap_or(3.5 * sigma)));
+                    let again3 = a.energy(&b);
+                    let _ = with(&|p| p.cutoff = None);
+                    let again4 = a.energy(&b);
+                    evaluations += 8;
+                    if !((e3 - 3. * expect).abs() <= 3. * tol) {
+                        failures.push(json!({"what": "pair energy is not linear in epsilon (evaluated after the same pair with another epsilon)",
+                            "state": e, "observed": {"sigma": sigma, "r": r, "e": e3, "expected": 3. * expect}}));
+                        break 'outer;
+                    }
+                    if [again1, again2, again3, again4].iter().any(|x| x.to_bits() != eab.to_bits()) {
+                        failures.push(json!({"what": "pair energy depends on the evaluations made before it",
+                            "state": e, "observed": {"sigma": sigma, "r": r, "first": eab, "again": [again1, again2, again3, again4]}}));
+                        break 'outer;
+                    }
+                    // a common rigid motion applied with the library's own operators
+                    let k = checked + (*alpha * 10.) as usize;
+                    let (la, lb) = (moved_by_library(&base.0, &m, k), moved_by_library(&base.1, &m, k + 3));
+                    let el = la.energy(&lb);
+                    evaluations += 1;
+                    if !((el - expect).abs() <= tol) {
+                        failures.push(json!({"what": "pair energy changes under a common rigid motion applied with Transform2 * LJ2 / LJ2 * Transform2",
+                            "state": e, "observed": {"sigma": sigma, "r": r, "spelling": [k % 8, (k + 3) % 8], "e": el, "expected": expect}}));
                         break 'outer;
                     }
                 }
